@@ -168,7 +168,7 @@ func findKernels(d *detInfo) (*kernels, error) {
 				if call, ok := in.(*ssa.Call); ok {
 					switch call.Call.StaticCallee() {
 					case k.countOne:
-						if k.countOne != nil {
+						if k.countOne != nil && fn != k.pixelsChanged {
 							k.hasMotion = fn
 						}
 					}
@@ -197,7 +197,7 @@ func findKernels(d *detInfo) (*kernels, error) {
 	}
 	k.reset = findMethod(d.W.Prog, d.T, "Reset")
 	for name, f := range map[string]*ssa.Function{"abs-diff kernel": k.diffAbs, "warmer-diff kernel": k.diffWarm, "one-frame counter": k.countOne, "two-frame counter": k.countTwo,
-		"pixelsChanged": k.pixelsChanged, "hasMotion": k.hasMotion, "background update": k.updateBg, "threshold computation": k.calcThresh, "FFC predicate": k.ffcPred, "Reset": k.reset} {
+		"pixelsChanged": k.pixelsChanged, "background update": k.updateBg, "threshold computation": k.calcThresh, "FFC predicate": k.ffcPred, "Reset": k.reset} {
 		if f == nil {
 			return k, fmt.Errorf("detector function not found by its behaviour: %s", name)
 		}
@@ -641,8 +641,8 @@ func propC07(w *World, r *Report) {
 		}
 		r.Check(found == 1, "K4", fn.Name()+": exactly one counting increment", "-", fmt.Sprint(found))
 	}
-	// hasMotion
-	{
+	// hasMotion (when the verdict is not computed in the selection logic itself: that form is checked on its paths)
+	if k.hasMotion != nil {
 		he := newTermEnv(w)
 		paths, complete := enumPaths(he, k.hasMotion, 16)
 		r.Check(complete && len(paths) == 2, "K4", "hasMotion is a two-way selection", w.Pos(k.hasMotion.Pos()), fmt.Sprint(len(paths)))
@@ -728,7 +728,7 @@ func (e *termEnv) ivOfIsLoopCounter(p *ssa.Phi) bool {
 func checkPixelsChanged(w *World, r *Report, d *detInfo, k *kernels, fam string) {
 	e := newTermEnv(w)
 	fn := k.pixelsChanged
-	paths, complete := enumPaths(e, fn, 128)
+	paths, complete := enumPathsInl(e, fn, 256, func(c *ssa.Function) bool { return k.hasMotion != nil && c == k.hasMotion })
 	if !complete {
 		r.Unknown(fam+"6", fn.Name(), w.Pos(fn.Pos()), "selection logic is not loop-free")
 		return
@@ -865,22 +865,28 @@ func checkPixelsChanged(w *World, r *Report, d *detInfo, k *kernels, fam string)
 			// a motion verdict: must be guarded by flag ∧ ¬ffc(cur) ∧ ¬ffc(prev)
 			r.Check(hasGuard(p.Conds, flagLeaf) && noFFC, "F1", name+": a motion verdict is only produced with the flag armed and no FFC on this or the previous frame", pos, strings.Join(guardStrings(p.Conds), " ∧ "))
 			one := hasGuard(p.Conds, d.leaf("useOneDiff"))
-			// hasMotion(diffCur, nil) or hasMotion(diffCur, diffPrev)
-			var hm *ssa.Call
+			// the verdict (whether computed here or in an unfolded helper): count-thresh <= CountPixels(current diff) with
+			// use-one-diff, else count-thresh <= CountPixelsTwoCompare(current diff, previous diff)
+			var cnt *ssa.Call
+			nCnt := 0
 			for _, in := range p.Instrs {
-				if c, ok := in.(*ssa.Call); ok && c.Call.StaticCallee() == k.hasMotion {
-					hm = c
+				if c, ok := in.(*ssa.Call); ok && (c.Call.StaticCallee() == k.countOne || c.Call.StaticCallee() == k.countTwo) {
+					cnt = c
+					nCnt++
 				}
 			}
-			okSel := hm != nil && hm.Call.Args[1] == diffCur
+			okSel := cnt != nil && nCnt == 1 && diffCur != nil && p.Term(e, cnt.Call.Args[1]).String() == p.Term(e, diffCur).String()
 			if okSel {
 				if one {
-					okSel = isNilConst(hm.Call.Args[2])
+					okSel = cnt.Call.StaticCallee() == k.countOne
 				} else {
-					okSel = hm.Call.Args[2] == diffPrev
+					okSel = cnt.Call.StaticCallee() == k.countTwo && diffPrev != nil && p.Term(e, cnt.Call.Args[2]).String() == p.Term(e, diffPrev).String()
 				}
 			}
-			r.Check(okSel, fam+"3", name+": verdict from the current diff (and, unless use-one-diff, the previous diff = the other slot of the 2-ring)", pos, strings.Join(seq, " → "))
+			if okSel {
+				okSel = ret0 == "le("+d.leaf("countThresh")+", "+p.Term(e, cnt).String()+")"
+			}
+			r.Check(okSel, fam+"3", name+": verdict = count-thresh <= changed pixels of the current diff (and, unless use-one-diff, of the previous diff = the other slot of the 2-ring)", pos, ret0+" ; "+strings.Join(seq, " → "))
 			r.Check(len(flagStores) == 0 && marks == 0, fam+"6", name+": no bookkeeping change on a normal comparison", pos, "")
 		}
 	}
